@@ -125,19 +125,22 @@ impl ItemAttr {
 			}
 		}
 
-		// Check for duplicate traits in different `derive_where`s with the same bounds,
-		// they are only merged above if they are adjacent.
+		// Check for duplicate traits in different `derive_where`s, they are only merged
+		// above if they are adjacent and have the same bounds. Two implementations of
+		// the same trait conflict whatever their bounds are.
 		for (index, derive_where) in self_.derive_wheres.iter().enumerate() {
 			for other in &self_.derive_wheres[index + 1..] {
-				if derive_where.generics == other.generics {
-					if let Some((span, _)) = other
-						.spans
-						.iter()
-						.zip(&other.traits)
-						.find(|(_, trait_)| derive_where.traits.contains(trait_))
-					{
-						return Err(Error::trait_duplicate(*span));
-					}
+				if let Some((span, _)) = other
+					.spans
+					.iter()
+					.zip(&other.traits)
+					.find(|(_, trait_)| derive_where.traits.contains(trait_))
+				{
+					return Err(if derive_where.generics == other.generics {
+						Error::trait_duplicate(*span)
+					} else {
+						Error::trait_duplicate_bounds(*span)
+					});
 				}
 			}
 		}
